@@ -267,6 +267,17 @@ func (s *Sched) After() {
 	}
 }
 
+// Await waits (bounded by the watchdog) until a running process parks or finishes and returns its state.
+func (s *Sched) Await(name string) string {
+	s.mu.Lock()
+	p := s.procs[name]
+	s.mu.Unlock()
+	if p == nil {
+		return "unknown"
+	}
+	return s.await(p)
+}
+
 // State returns the current state and gate of a process.
 func (s *Sched) State(name string) (string, GateInfo) {
 	s.mu.Lock()
